@@ -246,6 +246,11 @@ fn mutating_bodies() -> Vec<(&'static str, String)> {
         ("pair is fresh per iteration", "ps := []\nfor p in [5, 6] {\nps += [p]\n}\nps[0][1] = 50\nprint(ps)\n"),
         ("range with non-zero start", "for [i, v] in 3 .. 6 {\nprint(i)\nprint(v)\n}\n"),
         ("range through variable", "r := 2 .. 5\nfor [i, v] in r {\nprint(i)\nprint(v)\n}\nfor e in -2 .. 1 {\nprint(e)\n}\n"),
+        ("closures collected in a for loop", "fs := []\nfor [i, v] in [10, 20, 30] {\nfs += [fn () {\nreturn [i, v]\n}]\n}\nprint(fs[0]())\nprint(fs[1]())\nprint(fs[2]())\n"),
+        ("closures collected in a for loop that continues", "fs := []\nfor [i, v] in [10, 20, 30] {\nd := v * 2\nfs += [fn () {\nreturn [i, d]\n}]\nif i == 1 {\ncontinue\n}\nd += 1\n}\nprint(fs[0]())\nprint(fs[1]())\nprint(fs[2]())\n"),
+        ("closures collected in a for loop that breaks", "fs := []\nfor [i, v] in [10, 20, 30] {\nd := v\nfs += [fn () {\nreturn d\n}]\nif i == 1 {\nbreak\n}\n}\nprint(fs[0]())\nprint(fs[1]())\n"),
+        ("closures collected in a while loop", "fs := []\nn := 0\nwhile n < 3 {\nn += 1\nd := n * 10\nfs += [fn () {\nd += 1\nreturn d\n}]\n}\nprint(fs[0]())\nprint(fs[2]())\nprint(fs[0]())\n"),
+        ("function defined in a loop body", "for [i, v] in [1, 2] {\nfn double() {\nreturn v * 2\n}\nprint(double())\n}\n"),
         ("empty iterables", "for e in [] {\nprint(\"no\")\n}\nfor e in \"\" {\nprint(\"no\")\n}\nfor e in {} {\nprint(\"no\")\n}\nfor e in 3 .. 3 {\nprint(\"no\")\n}\nprint(\"done\")\n"),
     ];
     for (n, s) in lists {
